@@ -11,8 +11,12 @@ func int32le(b []byte) int {
 
 // readerOracle judges one (stream, sizes) run of the real Reader against the property.
 func readerOracle(c *Ctx, class string, crc bool, stream []byte, sizes []int) string {
+	lzCloseTwiceForgets = false
 	out, data, cerr, stuck, pan := implLzr(crc, stream, sizes)
 	rep := map[string]interface{}{"class": class, "crc": crc, "stream_hex": trunc(hx(stream), 8000), "stream_len": len(stream), "read_sizes": sizes, "observed": trunc(out, 300)}
+	if lzCloseTwiceForgets {
+		c.Violate("C08:second-close-nil:"+class, fmt.Sprintf("Close() returned %v, a second Close() returned nil: the verdict on a stream that does not check out is taken back", cerr), rep)
+	}
 	if pan {
 		c.Violate("C08:panic:"+class, "Reader panicked: "+trunc(out, 200), rep)
 		return out
